@@ -30,6 +30,9 @@ func (childHandler) Handle(ctx context.Context, args *raw.Args) (*raw.Res, error
 	if args.Method == "slow" {
 		time.Sleep(150 * time.Millisecond)
 	}
+	if args.Method == "hang" { // never answers within the caller's ttl (id re-use sequences)
+		<-ctx.Done()
+	}
 	return &raw.Res{Arg2: args.Arg2, Arg3: args.Arg3}, nil
 }
 func (childHandler) OnError(ctx context.Context, err error) {}
@@ -47,13 +50,21 @@ func runChild(role string) {
 	}
 	server.Register(raw.Wrap(childHandler{}), "echo")
 	server.Register(raw.Wrap(childHandler{}), "slow")
+	server.Register(raw.Wrap(childHandler{}), "hang")
 	if err := server.ListenAndServe("127.0.0.1:0"); err != nil {
 		panic(err)
 	}
 	target := server.PeerInfo().HostPort
-	if role == "relay" {
+	if strings.HasPrefix(role, "relay") {
 		rh := relaytest.NewStubRelayHost()
-		rly, err := tchannel.NewChannel("relay", &tchannel.ChannelOptions{RelayHost: rh, Logger: tchannel.NullLogger})
+		ropts := &tchannel.ChannelOptions{RelayHost: rh, Logger: tchannel.NullLogger}
+		switch role {
+		case "relayc": // cancel frames are relayed
+			ropts.DefaultConnectionOptions.PropagateCancel = true
+		case "relayt": // the "too many tombstones: delete immediately" path of relayItems.Entomb
+			ropts.RelayMaxTombs = 1
+		}
+		rly, err := tchannel.NewChannel("relay", ropts)
 		if err != nil {
 			panic(err)
 		}
@@ -365,6 +376,10 @@ func lastLines(s string) string {
 }
 
 func enginePeerInput(rng *rand.Rand, n int, tier string, o *Out) {
+	// id re-use over the tombstone period (engine_peerinput_reuse.go): started first, runs in the
+	// background against its own child processes, reported after the other cases
+	finishReuse := c03rStart(rng, n, tier, o)
+	defer finishReuse()
 	for _, role := range []string{"server", "relay"} {
 		c, err := startChild(role)
 		if err != nil {
